@@ -294,3 +294,70 @@ Example terminate_example :
   packet_available (s_reader (w_sess ex_resumed)) = false /\
   snd (op_drive FUEL ex_resumed) = ODone None /\ work (s_ob (w_sess (fst (op_drive FUEL ex_resumed)))) = 0.
 Proof. vm_compute. repeat split; reflexivity. Qed.
+
+(* ---------- the measure is bounded by the arena: FUEL suffices in every reachable world ---------- *)
+From Minimq Require Import CodecProofs Reach ArenaLemmas ArenaOps.
+
+Lemma enc_ack_len : forall typ pid rc off bs, enc_ack CONTROL_PACKET_LEN typ pid rc = SOk off bs -> lenN bs <= 5.
+Proof.
+  intros typ pid rc off bs E. unfold enc_ack in E.
+  destruct (encode_chunks_content _ _ _ _ _ _ E) as [rl [body [Hc [Hb Hv]]]].
+  assert (Hbody : lenN body = 3).
+  { unfold ack_chunks, concat_chunks in Hc. cbn in Hc. inversion Hc; subst body. reflexivity. }
+  rewrite Hbody in Hv. inversion Hv; subst rl. rewrite Hb, lenN_cons, lenN_app, Hbody. cbn. lia.
+Qed.
+
+Lemma ctl_bytes_len : forall a, lenN (ctl_bytes a) <= 5.
+Proof.
+  intros a. unfold ctl_bytes. destruct (encode_control_packet a) as [off bs|e] eqn:E; [|cbn; lia].
+  destruct a as [pid rc|pid rc|pid rc|]; cbn [encode_control_packet] in E; try (eapply enc_ack_len; exact E).
+  vm_compute in E. inversion E; subst. vm_compute. discriminate.
+Qed.
+
+Lemma rel_bytes_len : forall pid rc, lenN (rel_bytes pid rc) <= 5.
+Proof.
+  intros. unfold rel_bytes. destruct (encode_pubrel pid rc) as [off bs|e] eqn:E; [|cbn; lia].
+  unfold encode_pubrel in E. eapply enc_ack_len; exact E.
+Qed.
+
+Lemma st_weight_le : forall st len, st_weight st len <= 2 + len.
+Proof. intros [w| |] len; unfold st_weight; lia. Qed.
+
+Lemma work_ctl_le : forall l, work_ctl l <= 7 * glen l.
+Proof.
+  induction l as [|x t IH]; [cbn; lia|]. rewrite work_ctl_cons. cbn [glen].
+  pose proof (st_weight_le (ce_st x) (lenN (ctl_bytes (ce_act x)))). pose proof (ctl_bytes_len (ce_act x)). lia.
+Qed.
+
+Lemma work_rel_le : forall l, work_rel l <= 7 * glen l.
+Proof.
+  induction l as [|x t IH]; [cbn; lia|]. rewrite work_rel_cons. cbn [glen].
+  pose proof (st_weight_le (le_st x) (lenN (rel_bytes (le_pid x) (le_rc x)))). pose proof (rel_bytes_len (le_pid x) (le_rc x)). lia.
+Qed.
+
+Lemma work_ret_le : forall es lo used, wf_layout lo es used -> work_ret es + lo <= 2 * glen es + used.
+Proof.
+  induction es as [|e t IH]; intros lo used H; cbn [wf_layout] in H.
+  - cbn. lia.
+  - destruct H as [H1 [H2 H3]]. rewrite work_ret_cons. cbn [glen]. specialize (IH _ _ H3).
+    pose proof (st_weight_le (re_st e) (re_len e)). lia.
+Qed.
+
+Theorem M_bounded : forall s, Inv s -> M s <= lenN (ob_buf (s_ob s)) + 133.
+Proof.
+  intros s [[[Hl Hu] Hr Hre Hc _ _] _ _]. unfold M, work, pbudget.
+  pose proof (work_ctl_le (ob_ctl (s_ob s))). pose proof (work_rel_le (ob_rel (s_ob s))).
+  pose proof (work_ret_le _ _ _ Hl).
+  destruct (rt_ping_timeout (s_rt s)); [|destruct (has_pending_pingreq (s_ob s))]; lia.
+Qed.
+
+(* every reachable world of a client whose transmit arena is at most 29 000 bytes: drive() cannot spin *)
+Theorem reachable_drive_terminates : forall c, cf_tx (c_cfg c) <= 29000 ->
+  let w := run_case c in halted w = false -> snd (op_drive FUEL w) <> OFuel.
+Proof.
+  intros c Hc w Hh. destruct (run_case_good c) as [I [_ Hn]]. fold w in I, Hn.
+  destruct Hn as [Hn|Hn]; [congruence|].
+  apply op_drive_terminates; [exact I|exact Hn|].
+  pose proof (M_bounded (w_sess w) (proj1 I)) as Hb. unfold w in Hb. rewrite reachable_Cap in Hb.
+  change (N.of_nat FUEL) with 30000. fold w in Hb. lia.
+Qed.
